@@ -181,7 +181,7 @@ fn three_namespace_chains_over(tier: &str, uris: [&'static str; 3], tag: &str) -
                 }
             }
             let names: Vec<String> = pl.iter().enumerate().map(|(i, k)| format!("T{i}[{}]", ["gamma", "beta", "alpha"][*k])).collect();
-            out.push(State { label: format!("chain3ns {}{}{tag}", names.join(" <- "), if reverse_imports { " imports-reversed" } else { "" }), depth: d as u32, set: SchemaSet { files, wsdl: None, start: "g.xsd".into() } });
+            out.push(State { label: format!("chain3ns {}{}{tag}", names.join(" <- "), if reverse_imports { " imports-reversed" } else { "" }), depth: d as u32, set: SchemaSet { files, wsdl: None, start: "g.xsd".into(), xs_is_default_namespace: false } });
         }
     }
     out
